@@ -247,7 +247,7 @@ impl Scenario for C15 {
                 good.push(good_record(&mut wl, &sw, true));
             }
         }
-        let mut emit = |records: Vec<Rec>, ctx: &mut Ctx, sm: &mut Rng, tag: &str| {
+        let emit = |records: Vec<Rec>, ctx: &mut Ctx, sm: &mut Rng, tag: &str| {
             let total: usize = records.iter().map(|r| r.bytes.len()).sum();
             let reader = if sm.chance(1, 3) {
                 ReaderCfg::Real
